@@ -64,7 +64,8 @@ def switch(*args):
 
 @njit(cache=True)
 def Saturation(x, xmin, xmax):
-    x = np.asarray(x).reshape((-1,))
+    # clip in floating point: an integer-valued x would be clipped to integers (Saturation(2, 0.6, 1.6) == 1)
+    x = np.asarray(x).reshape((-1,)).astype(np.float64)
     return np.clip(x, xmin, xmax)
 
 
